@@ -97,3 +97,36 @@ Definition sched_cancel_granted : list action :=
 Definition sched_cancel_reuse : list action :=
   sched_cancel_granted ++ [AResumeCancelled 2; AResume 1; AStart 3 (rq_c 7 9 [(world, 3%N, 5%Z)])] ++
   repeat (AResume 3) 12 ++ [APersistOk] ++ repeat (AResume 3) 3.
+
+(* ---- transient store read failures (Properties/C06.v, C06_read_failure_example and the SaveMeta witness) ------- *)
+(* [sched_queued]: request 1 holds the locks of accounts 1, 2 and is parked at "locked", request 2 (key 7, reference
+   9) is queued behind it. The balance read of 1 fails: 1 answers [RErr EStoreRead], its locks are released and the
+   re-check grants 2, which then runs to completion (tx 1: account 1 still holds the 100 that 1 did not spend) *)
+Definition sched_readfail_locked : list action := sched_queued ++ [AResumeReadFail 1].
+Definition sched_readfail_done : list action :=
+  sched_readfail_locked ++ repeat (AResume 2) 7 ++ [APersistOk] ++ repeat (AResume 2) 4.
+(* request 0 funds account 1 and is acknowledged tx 0: the only transaction of the ledger *)
+Definition sched_fund : list action :=
+  [AStart 0 (rq_c 0 0 [(world, 1%N, 100%Z)])] ++ repeat (AResume 0) 8 ++ [APersistOk] ++ repeat (AResume 0) 3.
+(* SaveMeta / DeleteMetadata (with idempotency keys 5 / 6) on the MISSING transaction 7 *)
+Definition rq_sm_missing : request :=
+  {| rq_kind := KSaveMeta; rq_ik := 5%N; rq_ref := 0%N; rq_dry := false; rq_postings := [];
+     rq_unb := false; rq_revert := 0; rq_target_tx := Some 7 |}.
+Definition rq_dm_missing : request :=
+  {| rq_kind := KDelMeta; rq_ik := 6%N; rq_ref := 0%N; rq_dry := false; rq_postings := [];
+     rq_unb := false; rq_revert := 0; rq_target_tx := Some 7 |}.
+(* GetTransaction answers "not found": refused *)
+Definition sched_sm_notfound : list action := sched_fund ++ [AStart 3 rq_sm_missing; AResume 3; AResume 3].
+(* the same read FAILS: SaveMeta ignores the error, goes through the append critical section, is written and
+   acknowledged *)
+Definition sched_sm_readfail : list action :=
+  sched_fund ++ [AStart 3 rq_sm_missing; AResume 3; AResumeReadFail 3] ++ repeat (AResume 3) 3 ++ [APersistOk] ++
+  repeat (AResume 3) 2.
+Definition sched_dm_readfail : list action := sched_fund ++ [AStart 3 rq_dm_missing; AResume 3; AResumeReadFail 3].
+(* a revert carrying key 8 whose GetTransaction fails at "revert.taken", BEFORE it took its key, while request 1
+   holds key 8 (parked at "ik.taken"): the revert answers [RErr EStoreRead] and key 8 stays reserved -- by 1 *)
+Definition rq_rv_k8 : request :=
+  {| rq_kind := KRevert; rq_ik := 8%N; rq_ref := 0%N; rq_dry := false; rq_postings := [];
+     rq_unb := false; rq_revert := 0; rq_target_tx := None |}.
+Definition sched_rev_readfail : list action :=
+  sched_fund ++ [AStart 1 (rq_c 8 0 [(world, 1%N, 10%Z)]); AStart 4 rq_rv_k8; AResumeReadFail 4].
